@@ -22,17 +22,67 @@ func c14GenCfg(r *Rng) string {
 	return "M=" + strings.Join(items, ",")
 }
 
+// store kinds of a case: f filesystem, c compression over filesystem (readable without a transaction);
+// q SQL part store, d compression over the SQL part store (need the ambient transaction)
+func c14GenKinds(r *Rng) string {
+	free := func() string { return r.Pick([]string{"f", "f", "f", "c"}) }
+	bound := func() string { return r.Pick([]string{"q", "q", "q", "d"}) }
+	switch x := r.Intn(100); {
+	case x < 20:
+		return "" // no token: three filesystem stores
+	case x < 30:
+		return "K=" + free() + free() + free()
+	case x < 55: // filesystem default, a DB-backed cold store
+		if r.Bool() {
+			return "K=" + free() + bound() + free()
+		}
+		return "K=" + free() + r.Pick([]string{free(), bound()}) + bound()
+	case x < 80: // DB-backed default, filesystem cold store(s)
+		if r.Bool() {
+			return "K=" + bound() + free() + r.Pick([]string{free(), bound()})
+		}
+		return "K=" + bound() + bound() + free()
+	case x < 97:
+		return "K=" + bound() + bound() + bound()
+	}
+	return "K=" + r.Pick([]string{"fq", "xyz", "ffff"}) // malformed
+}
+
+func c14WithKinds(r *Rng, h string) string {
+	k := c14GenKinds(r)
+	if k == "" {
+		return h
+	}
+	return "h " + k + h[1:]
+}
+
 func (c14) Gen(rng *Rng, tier string, n int) []string {
 	var out []string
 	for i := 0; i < n; i++ {
 		r := rng.Fork()
 		if i%4 == 3 {
-			out = append(out, c14GenNoncurrent(r))
+			out = append(out, c14WithKinds(r, c14GenNoncurrent(r)))
 		} else {
-			out = append(out, c14GenHistory(r))
+			out = append(out, c14WithKinds(r, c14GenHistory(r)))
 		}
 	}
 	return out
+}
+
+func c14GenRanges(r *Rng) string {
+	var rs []string
+	for i := 0; i < 1+r.Intn(3); i++ {
+		a := r.Intn(70)
+		z := a + 1 + r.Intn(60)
+		if r.Chance(8) {
+			z = a // empty: InvalidRange
+		}
+		if r.Chance(10) {
+			z = 100000
+		}
+		rs = append(rs, strconv.Itoa(a)+"-"+strconv.Itoa(z))
+	}
+	return strings.Join(rs, ",")
 }
 
 // the lifecycle shape: versions written while unversioned/suspended and enabled, identical contents across
@@ -57,9 +107,11 @@ func c14GenNoncurrent(r *Rng) string {
 	}
 	ops = append(ops, "V:0:E")
 	for i := 0; i < 1+r.Intn(3); i++ {
-		switch r.Intn(6) {
+		switch r.Intn(7) {
 		case 0:
 			ops = append(ops, "D:0:"+k+":L") // delete marker
+		case 6:
+			ops = append(ops, "MP:0:"+k+":"+cls()+":"+cont+"."+strconv.Itoa(r.Intn(4)))
 		case 1:
 			ops = append(ops, "C:0:"+k+":X:0:"+k+":"+cls())
 		default:
@@ -99,6 +151,9 @@ func c14GenNoncurrent(r *Rng) string {
 		ops = append(ops, "T:0:"+k+":"+sel()+":"+cls()+":"+im)
 		if r.Chance(35) {
 			ops = append(ops, "R:0:"+k+":"+sel())
+		}
+		if r.Chance(25) {
+			ops = append(ops, "G:0:"+k+":"+sel()+":"+c14GenRanges(r))
 		}
 		if r.Chance(15) {
 			ops = append(ops, "D:0:"+k+":"+sel())
@@ -187,8 +242,16 @@ func c14GenHistory(r *Rng) string {
 				if r.Chance(40) {
 					ops = append(ops, "R:"+strconv.Itoa(b)+":"+strconv.Itoa(k)+":L")
 				}
-			case x < 86:
+			case x < 82:
 				ops = append(ops, "D:"+strconv.Itoa(b)+":"+strconv.Itoa(k)+":"+pickV())
+				nOrd++
+			case x < 87:
+				n := 1 + r.Intn(3)
+				var cs []string
+				for j := 0; j < n; j++ {
+					cs = append(cs, strconv.Itoa(r.Intn(nCont)))
+				}
+				ops = append(ops, "MP:"+strconv.Itoa(b)+":"+strconv.Itoa(k)+":"+cls()+":"+strings.Join(cs, "."))
 				nOrd++
 			case x < 91:
 				st := r.Pick([]string{"E", "E", "S"})
@@ -197,7 +260,11 @@ func c14GenHistory(r *Rng) string {
 			case x < 95:
 				ops = append(ops, "N")
 			default:
-				ops = append(ops, "R:"+strconv.Itoa(b)+":"+strconv.Itoa(k)+":"+pickV())
+				if r.Bool() {
+					ops = append(ops, "G:"+strconv.Itoa(b)+":"+strconv.Itoa(k)+":"+pickV()+":"+c14GenRanges(r))
+				} else {
+					ops = append(ops, "R:"+strconv.Itoa(b)+":"+strconv.Itoa(k)+":"+pickV())
+				}
 			}
 		}
 	}
